@@ -63,6 +63,22 @@ BindingAllowed(px, py, x, y, v, r) ==
           \/ \E k \in DOMAIN occs : Leaves(occs[k])[i].f = lr[i].f
           \/ (\E k \in DOMAIN occs : IsVarFeat(Leaves(occs[k])[i].f)) /\ lr[i].f \in pool
 
+
+(* ---- instantiation of a schema result (used by GrammarEn / GrammarJa) ----
+   r is the schema result A with its variable features instantiated.  m1, m2 are the two sub-categories the schema
+   matched against each other.  A variable feature f of A that met a *concrete* feature in the match must be replaced
+   by one of the features it met (which one, when they conflict, is unspecified); a variable that met only absent /
+   'nb' / variable features may also stay as it is; a variable that does not occur in the matched parts stays. *)
+Met(f, m1, m2) == LET l1 == Leaves(m1)  l2 == Leaves(m2) IN
+                  {l2[i].f : i \in {j \in DOMAIN l1 : l1[j].f = f}} \cup {l1[i].f : i \in {j \in DOMAIN l2 : l2[j].f = f}}
+ConcreteFeat(g) == ~IsVarFeat(g) /\ ~IsIgnorable(g)
+AllowedInst(f, m1, m2) == LET b == Met(f, m1, m2) IN IF \E g \in b : ConcreteFeat(g) THEN b ELSE b \cup {f}
+InstanceOf(r, A, m1, m2) ==
+  /\ Blind(r) = Blind(A)
+  /\ Blind(m1) = Blind(m2)
+  /\ LET lr == Leaves(r)  la == Leaves(A)
+     IN \A i \in DOMAIN lr : IF IsVarFeat(la[i].f) THEN lr[i].f \in AllowedInst(la[i].f, m1, m2) ELSE lr[i].f = la[i].f
+
 (* instantiate a pattern with a substitution (function from variable names to categories);
    '|' in the pattern is spelled with the slash given *)
 RECURSIVE Inst(_, _, _)
